@@ -1,5 +1,54 @@
 import Driver.Proto
-/-! C04 handler (not implemented yet). -/
+import ThunderModel.Reactive.Graph
+/-! C04 handler: replay of an event trace of the real `reactive` package in the model. -/
+open Lean TM TM.Reactive
+
 namespace Driver.C04
-def handle : Handler := fun _ => throw "C04: no model yet"
+
+def decLabel (j : Json) : Except String Label := do
+  let k ← str j "l"
+  let a := (j.getObjValAs? Nat "a").toOption.getD 0
+  let b := (j.getObjValAs? Nat "b").toOption.getD 0
+  match k with
+  | "newNode" => pure .newNode
+  | "newRr" => pure .newRr
+  | "spawnInv" => pure (.spawnInv a)
+  | "strobe" => pure (.strobe a)
+  | "addOut" => pure (.addOut a b)
+  | "runInv" => pure (.runInv a)
+  | "rrEnter" => pure (.rrEnter a b)
+  | "rrSkip" => pure (.rrSkip a)
+  | "rrExitOk" => pure (.rrExitOk a)
+  | "rrExitFail" => pure (.rrExitFail a)
+  | "rrExitRetry" => pure (.rrExitRetry a)
+  | "rrCancel" => pure (.rrCancel a)
+  | "rrStop" => pure (.rrStop a)
+  | _ => throw s!"bad label {k}"
+
+/-- run as far as possible; the index of the first disabled label, if any -/
+def replay : St → List Label → Nat → St × Option Nat
+  | s, [], _ => (s, none)
+  | s, l :: ls, i => match step s l with
+      | some s' => replay s' ls (i + 1)
+      | none => (s, some i)
+
+def encSt (s : St) : Json :=
+  Json.mkObj [
+    ("invalidated", Json.arr (s.nodes.map fun n => (n.invalidated : Json)).toArray),
+    ("fired", Json.arr (s.nodes.map fun n => (n.fired : Json)).toArray),
+    ("rrs", Json.arr (s.rrs.map fun r => Json.mkObj [
+      ("comp", match r.comp with | some c => (c : Json) | none => Json.null),
+      ("inRun", match r.inRun with | some c => (c : Json) | none => Json.null),
+      ("cancelled", r.cancelled), ("stopped", r.stopped), ("failed", r.failed), ("runs", (r.runs : Nat))]).toArray),
+    ("pendingInv", jNats s.pendingInv), ("pendingRun", jNats s.pendingRun)]
+
+def handle : Handler := fun req => do
+  let op ← str req "op"
+  match op with
+  | "replay" =>
+    let ls ← listOf decLabel (← field req "labels")
+    let (s, bad) := replay init ls 0
+    pure <| Json.mkObj [("state", encSt s), ("stuck", match bad with | some i => (i : Json) | none => Json.null)]
+  | _ => throw s!"C04: unknown op {op}"
+
 end Driver.C04
